@@ -256,9 +256,10 @@ class Batch:
             self.reach[k] = self.reach.get(k, 0) + v
         for k, v in p['obs'].items():
             self.obs[k] = self.obs.get(k, 0) + v
-        self.sigs.add(p['sig'])
+        sh = int.from_bytes(hashlib.blake2b(p['sig'].encode('utf-8', 'replace'), digest_size=8).digest(), 'big')   # 64-bit fingerprint: millions of runs
+        self.sigs.add(sh)
         if p['nontrivial']:
-            self.nontrivial_sigs.add(p['sig'])
+            self.nontrivial_sigs.add(sh)
         self._h.update(p['digest'].encode())
         if self.dump:
             self.run_digests.append((idx, p['digest'], p['sig'][:60]))
